@@ -40,6 +40,10 @@ class OptInterp:
         self._calls = []
         self.src = {}             # provenance labels: pkey -> frozenset(labels)
         self.labels = {}          # callee or instruction id -> label for the result of that call
+        self.field_labels = {}    # "field:<adt>.<name>" -> label for every read of that field
+        self._ctl = frozenset()   # labels of the values the current path has branched on
+        self.prog = None          # Program: lets a closure value carry the labels of what its body reads
+        self.fork_unknown = False  # explore both cases of an Option of unknown presence at unwrap_or / map_or / or
 
     def val(self, env, op):
         if op.place is not None:
@@ -59,13 +63,19 @@ class OptInterp:
     def srcs(self, env, op):
         if op.place is None:
             return frozenset()
+        extra = frozenset()
+        if self.field_labels:
+            for (adt, v, n, i) in op.place.fields():
+                lab = self.field_labels.get("field:%s.%s" % (adt, n)) if adt and n is not None else None
+                if lab:
+                    extra |= frozenset([lab])
         k = pkey(op.place)
         se = env.get("__src__", {})
         while True:
             if k in se:
-                return se[k]
+                return se[k] | extra
             if not k[1]:
-                return frozenset()
+                return extra
             k = (k[0], k[1][:-1])
 
     def set_src(self, env, place, labels):
@@ -75,6 +85,25 @@ class OptInterp:
             del se[kk]
         se[k] = frozenset(labels)
         env["__src__"] = se
+
+    def closure_labels(self, ck, depth=0):
+        """labels of the labelled fields read and labelled functions called inside a closure body (and its nested closures)"""
+        out = frozenset()
+        body = self.prog.bodies.get(ck) if self.prog is not None else None
+        if body is None or depth > 3:
+            return out
+        for ins in body.instrs():
+            for op in list(ins.ops) + list(ins.args):
+                if op.place is not None:
+                    for (adt, v, n, i) in op.place.fields():
+                        lab = self.field_labels.get("field:%s.%s" % (adt, n)) if adt and n is not None else None
+                        if lab:
+                            out |= frozenset([lab])
+            if ins.kind == "call" and ins.callee in self.labels:
+                out |= frozenset([self.labels[ins.callee]])
+            if ins.kind == "assign" and ins.rv_kind() == "agg" and ins.rv.get("ak") == "closure":
+                out |= self.closure_labels(ins.rv["closure"], depth + 1)
+        return out
 
     def note_reads(self, ins):
         ops = list(ins.ops) + list(ins.args)
@@ -188,6 +217,11 @@ class OptInterp:
                 return sa[0] if a[0] == "S" else (sa[1] if a[0] == "N" else sa[0] | sa[1])
             if name in ("as_ref", "as_mut", "copied", "cloned", "unwrap", "expect", "take"):
                 return sa[0]
+            if name in ("unwrap_or_else", "or_else"):
+                return sa[0] if a[0] == "S" else (sa[1] if a[0] == "N" else sa[0] | sa[1])
+            if name in ("map_or", "map_or_else") and len(sa) >= 3:
+                # absent: the default alone; present: the mapped value (the closure may capture further sources)
+                return sa[1] if a[0] == "N" else (sa[0] | sa[2] if a[0] == "S" else sa[0] | sa[1] | sa[2])
         out = frozenset()
         for x in sa:
             out |= x
@@ -217,6 +251,12 @@ class OptInterp:
                 lab = frozenset()
                 for o_ in ins.ops:
                     lab |= self.srcs(env, o_)
+                if rk == "agg" and ins.rv.get("ak") == "closure":
+                    lab |= self.closure_labels(ins.rv["closure"])
+                if rk == "discr":
+                    from .facts import Operand as _Op
+                    dp_ = ins.discr_place()
+                    lab |= self.srcs(env, _Op({"k": "copy", "pl": {"l": dp_.local, "p": dp_.proj}}))
                 rp_ = ins.ref_place()
                 if rp_ is not None:
                     from .facts import Operand as _Op
@@ -283,6 +323,16 @@ class OptInterp:
             if k == "call":
                 if ins.id in self.watch:
                     self._passed = self._passed + [ins.id]
+                if self.fork_unknown and (ins.callee or "").startswith(OPT + "::") and ins.args and ins.args[0].place is not None \
+                        and (ins.callee or "").split("::")[-1] in ("unwrap_or", "unwrap_or_else", "unwrap_or_default", "map_or", "map_or_else", "or", "or_else") \
+                        and self.val(env, ins.args[0]) == "?":
+                    saved = (list(self._passed), dict(self._reads), list(self._calls), self._ctl)
+                    for want in ("S", "N"):
+                        e2 = dict(env)
+                        e2[pkey(ins.args[0].place)] = want
+                        self._passed, self._reads, self._calls, self._ctl = list(saved[0]), dict(saved[1]), list(saved[2]), saved[3]
+                        self.explore(bb, idx, e2, discr_of)
+                    return
                 v = self.call_model(env, ins)
                 self._calls = self._calls + [ins.callee or "?"]
                 if v == "!":
@@ -301,7 +351,7 @@ class OptInterp:
             if k == "return":
                 self.results.append(env.get((0, ()), "?"))
                 self.paths.append(list(self._passed))
-                self.records.append({"reads": dict(self._reads), "calls": list(self._calls), "ret": env.get((0, ()), "?"),
+                self.records.append({"reads": dict(self._reads), "calls": list(self._calls), "ret": env.get((0, ()), "?"), "ctl_src": set(self._ctl),
                                      "ret_src": set(env.get("__src__", {}).get((0, ()), frozenset()))})
                 return
             if k == "switch":
@@ -310,6 +360,9 @@ class OptInterp:
                 tmap = dict(ins.targets)
                 saved = list(self._passed)
                 saved_reads, saved_calls = dict(self._reads), list(self._calls)
+                if o.place is not None:
+                    self._ctl = self._ctl | self.srcs(env, o)
+                saved_ctl = self._ctl
                 dv = self.val(env, o) if o.place is not None else "?"
                 if isinstance(dv, tuple) and dv[0] == "D":
                     t = tmap.get(dv[1], ins.otherwise)
@@ -340,7 +393,7 @@ class OptInterp:
                             e2 = dict(env)
                             e2[src] = want
                             self._passed = list(saved)
-                            self._reads, self._calls = dict(saved_reads), list(saved_calls)
+                            self._reads, self._calls, self._ctl = dict(saved_reads), list(saved_calls), saved_ctl
                             self.explore(t, 0, e2, discr_of)
                         return
                 bv = self.val(env, o) if o.place is not None else "?"
@@ -348,7 +401,7 @@ class OptInterp:
                     t = tmap.get(0, ins.otherwise) if bv == "F" else ins.otherwise
                     if not dead(t):
                         self._passed = list(saved)
-                        self._reads, self._calls = dict(saved_reads), list(saved_calls)
+                        self._reads, self._calls, self._ctl = dict(saved_reads), list(saved_calls), saved_ctl
                         self.explore(t, 0, dict(env), discr_of)
                     return
                 ts = [b for _, b in ins.targets] + [ins.otherwise]
@@ -363,7 +416,7 @@ class OptInterp:
                     if src is not None and t != ins.otherwise:
                         pass
                     self._passed = list(saved)
-                    self._reads, self._calls = dict(saved_reads), list(saved_calls)
+                    self._reads, self._calls, self._ctl = dict(saved_reads), list(saved_calls), saved_ctl
                     self.explore(t, 0, e2, discr_of)
                 return
             if k == "unreachable":
@@ -382,13 +435,14 @@ def presence_table(body, src_a, src_b):
     return out
 
 
-def presence_sources(body, src_a, src_b):
+def presence_sources(body, src_a, src_b, prog=None):
     """for the four presence cases: list of (result tag, provenance labels of the result) over all returning paths"""
     out = {}
     for va in ("S", "N"):
         for vb in ("S", "N"):
             it = OptInterp(body, {src_a: va, src_b: vb})
             it.labels = {src_a: "A", src_b: "B"}
+            it.prog = prog
             it.run()
             out[(va, vb)] = sorted({(r["ret"] if isinstance(r["ret"], str) else "?", tuple(sorted(r["ret_src"]))) for r in it.records})
     return out
@@ -398,5 +452,16 @@ def enum_cases(body, forced):
     """explore the body with the discriminants of the given locals fixed; returns the per-path records"""
     it = OptInterp(body, {})
     it.forced = dict(forced)
+    it.run()
+    return it.records
+
+
+def value_paths(body, labels=None, field_labels=None, sources=None, fork_unknown=True, prog=None):
+    """all returning paths with the provenance labels of the returned value (`ret_src`) and of the values branched on (`ctl_src`)"""
+    it = OptInterp(body, sources or {})
+    it.labels = labels or {}
+    it.field_labels = field_labels or {}
+    it.fork_unknown = fork_unknown
+    it.prog = prog
     it.run()
     return it.records
